@@ -10,7 +10,7 @@ points + golden-section refinement) point beats the returned extremes."""
 import math, warnings, json
 import common
 from common import bf, cbf, coq_list
-from harness.c08 import RootsTap, golden, rnd, gen_line, gen_quad, gen_cubic, make_seg, ser, deser
+from harness.c08 import RootsTap, golden, rnd, gen_line, gen_quad, gen_cubic, make_seg, ser, deser, probe_polyroots_fixed
 
 GEN_GROUPS = ['GenBoxes', 'GenExtrema']
 AGREE = ['Extrema.v']
@@ -21,6 +21,7 @@ Definition N := NumB.
 Definition T := NumTB.
 Definition atol : bf := %(atol)s.
 Definition rtol : bf := %(rtol)s.
+Definition fixed : bool := %(fixed)s.     (* polyroots de-duplication variant of the tree under test (probed) *)
 Definition rr : Type := ((bf * bf) * (bf * bf))%%type.
 Definition dist (w z : Cplx bf) : bf := cabs T (csub N w z).
 Definition bzero : bf := zero N.
@@ -70,7 +71,7 @@ Definition ok (c : rcase) : nat :=
           (bclose tol dmax (dist (line_point N s e tmax) z), 4);
           (le01 N tmin && le01 N tmax, 5) ]
   | RBez pts z roots dco ctol tol res =>
-      let m := bezier_radialrange N T atol rtol (bez_point pts) z roots in
+      let m := bezier_radialrange N T fixed atol rtol (bez_point pts) z roots in
       let dm := r_squared_deriv N (bez_poly pts) z in
       let '((dmin, tmin), (dmax, tmax)) := res in
       first_fail
@@ -283,6 +284,8 @@ def run(rep, tier, seed, replay=None):
     import inspect
     sig = inspect.signature(mt.isclose)
     atol, rtol = sig.parameters['atol'].default, sig.parameters['rtol'].default
+    fixed = probe_polyroots_fixed()
+    rep.cov['variant'] = {'polyroots_dedup': 'repaired (fixed=true)' if fixed else 'pinned (fixed=false)'}
     rng = common.mkrng(seed, 'C13')
     with common.Scratch() as tmp:
         info = common.std_static(rep, 'C13', GEN_GROUPS, AGREE, tmp)
@@ -374,7 +377,7 @@ def run(rep, tier, seed, replay=None):
             except Exception as e:
                 rep.violation('implementation raised %s in radialrange' % type(e).__name__,
                               {'kind': 'exception', 'item': repr(item)[:600], 'error': repr(e)}, key='impl-exception')
-        okdef = OKDEF % {'atol': bf(atol), 'rtol': bf(rtol)}
+        okdef = OKDEF % {'atol': bf(atol), 'rtol': bf(rtol), 'fixed': common.coq_bool(fixed)}
         fails, errors = common.run_cases(tmp, 'From SVP Require Import Base.BigF.\n', 'rcase', okdef, cases, shard=50)
         for e in errors:
             rep.violation('correspondence case file failed to evaluate', {'kind': 'cases', 'error': e},
@@ -389,7 +392,7 @@ def run(rep, tier, seed, replay=None):
                 if r is not None:
                     w, detail, tstar = r
                     key = 'radialrange-%s-%s' % (w, sercase['kind'])
-                    if w.startswith('not-global') and dedup_suspect(calls, tstar, atol, rtol):
+                    if w.startswith('not-global') and not fixed and dedup_suspect(calls, tstar, atol, rtol):
                         key = 'polyroots-dedup-drops-root'
                     elif w.startswith('not-global') and ill_conditioned(calls) and excess(segs[0], z, res, tstar) <= 1e-4 * size:
                         key = 'radialrange-np-roots-ill-conditioned'
@@ -411,7 +414,7 @@ def run(rep, tier, seed, replay=None):
                     elif gmin < dmin - 1e-7 * size or gmax > dmax + 1e-7 * size:
                         key = 'path-radialrange-not-global'
                         ts = [p[0][1] for p in per if p[0][0] < dmin - 1e-7 * size] + [p[1][1] for p in per if p[1][0] > dmax + 1e-7 * size]
-                        if any(dedup_suspect(calls, t, atol, rtol) for t in ts):
+                        if not fixed and any(dedup_suspect(calls, t, atol, rtol) for t in ts):
                             key = 'polyroots-dedup-drops-root'
                         elif ill_conditioned(calls) and max(dmin - gmin, gmax - dmax) <= 1e-4 * size:
                             key = 'radialrange-np-roots-ill-conditioned'
